@@ -229,7 +229,11 @@ class _PastGuard(Exception):
     pass
 
 
-def _min_samples(data: List[int]) -> bool:
+class _PastGuardError(_PastGuard, ValueError):
+    """what a splitter raises on too little data is a ValueError; the sentinel's signal must be distinguishable"""
+
+
+def _min_samples(data: List[int], strategy=None) -> bool:
     """ModelFitError iff fewer than 3 samples (everything after the guard is cut by the sentinel)."""
 
     def sentinel(*a, **k):
@@ -239,7 +243,7 @@ def _min_samples(data: List[int]) -> bool:
     sm.train_test_split = sentinel
     try:
         obj = object.__new__(FitModelState)
-        obj.cross_validation_strategy = None
+        obj.cross_validation_strategy = strategy
         obj.data = data
         obj.parameter_space = {}
         obj.scoring = None
@@ -284,3 +288,29 @@ def t_min_samples_rows(data: List[List[int]]) -> bool:
     post: not _
     """
     return _min_samples(data)
+
+
+class _AnyStrategy:
+    """a user-supplied cross-validation strategy object (its behaviour is cut by the sentinels)"""
+
+    def split(self, *a, **k):
+        raise _PastGuard()
+
+    def get_n_splits(self, *a, **k):
+        return 2
+
+
+def c_min_samples_with_strategy(data: List[int]) -> bool:
+    """
+    pre: len(data) <= 5
+    post: _
+    """
+    return _min_samples(data, _AnyStrategy())
+
+
+def t_min_samples_with_strategy(data: List[int]) -> bool:
+    """
+    pre: len(data) <= 5
+    post: not _
+    """
+    return _min_samples(data, _AnyStrategy())
